@@ -268,6 +268,23 @@ def run(ctx, rep):
                           why or ("filters agree: %s" % (sorted(drops) if drops else "none")))
     rep.floor("R3", "positional pairings of package and instructions/reports", n_zip, 6)
 
+    # a sender that refuses an empty instruction list (raise, not a BetfairError: neither retried nor reset)
+    # must never see one for a non-empty package: its instruction property maps every order
+    n_snd = 0
+    for ecls, pcls in (("BetfairExecution", "BetfairOrderPackage"), ("BetdaqExecution", "BetdaqOrderPackage")):
+        for kind in ("place", "cancel", "update", "replace"):
+            snd = prog.cls(ecls).methods.get(kind)
+            prop = prog.cls(pcls).methods.get("%s_instructions" % kind)
+            if snd is None or prop is None:
+                continue
+            if not walk_nodes(snd.node.body, ast.Raise):
+                continue
+            n_snd += 1
+            drops = _comp_filter_drops(prop)
+            rep.check(drops == set(), "R3", key(prop, None, "one %s instruction per order of the package (the sender raises on an empty list)" % kind),
+                      prop, None, "an order left out can be every order: the request is then given up without retry or reset")
+    rep.floor("R3", "senders that refuse an empty instruction list", n_snd, 2)
+
     # ------------------------------------------------------------------ R4 retry
     rt = prog.own_method("BaseOrderPackage", "retry")
     cfg = ctx.cfg(rt)
@@ -514,5 +531,9 @@ def MUTANTS(ctx):
         dict(id="c12-replace-count-dropped", file=_BF, func="BetfairExecution.execute_replace",
              old="            order_package.client.add_transaction(len(order_package))\n", new="", expect=["R5"],
              why="replacement bets not counted"),
+        dict(id="c12-cancel-instructions-filtered", file="flumine/order/orderpackage.py", func="BetfairOrderPackage.cancel_instructions",
+             old="return [order.create_cancel_instruction() for order in self]",
+             new="return [order.create_cancel_instruction() for order in self if order.size_remaining]",
+             expect=["R3"], why="an empty list makes the sender raise: no retry, no reset"),
     ]
     return out
